@@ -825,3 +825,102 @@ def c16(ctx):
                         it["name"], it["ver"], exp_s, exp_q, st["summary"], st["summaryQuery"]), "vh-kafka stage"))
                 nviol += 1
     return nviol
+
+
+# --------------------------------------------------------------------------- spec encoder tie
+class _Skip(Exception):
+    pass
+
+
+def spec_value(ty, toks, pos=0):
+    """The kv value of a message body according to the spec schema, built from the encoder's tokens."""
+    k = ty["k"]
+    if k == "struct":
+        fs = []
+        for n, ft in ty["f"]:
+            v, pos = spec_value(ft, toks, pos)
+            fs.append([n, v])
+        return {"f": fs}, pos
+    if k in ("arr", "carr"):
+        t = toks[pos]
+        pos += 1
+        if t["v"] < 0:
+            return None, pos
+        out = []
+        for _ in range(t["v"]):
+            v, pos = spec_value(ty["e"], toks, pos)
+            out.append(v)
+        return {"a": out}, pos
+    if k in ("str", "cstr", "bytes", "cbytes"):
+        t = toks[pos]
+        if t["v"] < 0:
+            return None, pos + 1
+        return ({"s": t.get("s", "")} if k in ("str", "cstr") else {"b": t.get("s", "")}), pos + 1
+    if k == "bool":
+        return bool(toks[pos]["v"]), pos + 1
+    if k in ("i8", "i16", "i32", "i64"):
+        return [toks[pos]["w"], toks[pos]["v"]], pos + 1
+    if k == "tags":
+        return {"f": []}, pos + 1
+    if k == "record":
+        iv = lambda i: [0, toks[pos + i]["v"]]
+        sv = lambda i: {"s": toks[pos + i].get("s", "")}
+        nh = toks[pos + 8]["v"]
+        hs = []
+        q = pos + 9
+        for _ in range(nh):
+            hs.append({"f": [["kl", [0, toks[q]["v"]]], ["k", {"s": toks[q + 1].get("s", "")}],
+                             ["vl", [0, toks[q + 2]["v"]]], ["v", {"s": toks[q + 3].get("s", "")}]]})
+            q += 4
+        return {"f": [["len", iv(0)], ["attr", iv(1)], ["ts", iv(2)], ["off", iv(3)], ["kl", iv(4)], ["k", sv(5)],
+                      ["vl", iv(6)], ["v", sv(7)], ["hs", {"a": hs}]]}, q
+    raise _Skip(k)
+
+
+def spec_encoder_tie(ctx, convs):
+    """KafkaSpecEnc.encode on the generated spec types against the bytes the segmentio encoder wrote."""
+    rows = schemas(ctx)
+    blobs, meta = [], []
+    for c in convs:
+        for ex in c["exch"]:
+            if not ex["supported"]:
+                continue
+            for dirn, toks, hexs, body in (("request", ex["req"], ex["req_hex"], ex["req_body"]), ("response", ex["resp"], ex["resp_hex"], ex["resp_body"])):
+                row = rows.get((ex["api"], ex["ver"], dirn))
+                if row is None:
+                    continue
+                try:
+                    v, pos = spec_value(row["spec"], toks)
+                except (_Skip, IndexError, KeyError):
+                    continue
+                if pos != len(toks):
+                    ctx.broken.append("K_kafka_spec: tokens of %s v%d %s do not fit the spec schema" % (ex["name"], ex["ver"], dirn))
+                    return
+                out = [struct.pack(">hhB", ex["api"], ex["ver"], 1 if dirn == "response" else 0)]
+                ser_kv(v, out)
+                out.append(_blob(bytes.fromhex(hexs)[body:]))
+                blobs.append(b"".join(out))
+                meta.append((ex["name"], ex["ver"], dirn))
+    bad = []
+    k = 0
+    fileno = 0
+    while k < len(blobs):
+        j, size = k, 0
+        while j < len(blobs) and (j == k or size < 250000):
+            size += len(blobs[j])
+            j += 1
+        last, words = blob_coq(struct.pack(">I", j - k) + b"".join(blobs[k:j]))
+        src = (K_HEADER + "Require Import V.gen.KafkaSpecSchemas.\nDefinition ws : list int := \n" + words + ".\n"
+               "Definition M := Eval vm_compute in failing_spec spec_grid %d ws.\nPrint M.\n" % last)
+        rc, out = coq_run_big(ctx, "kafka_spec_%d" % fileno, src, timeout=1200)
+        fileno += 1
+        idx = vlib.parse_coq_list_of_nat(out, "M")
+        if rc != 0 or idx is None or idx == [4999]:
+            ctx.broken.append("K_kafka_spec: coqc failed on the case file")
+            ctx.log(out[-600:])
+            return
+        bad += [meta[k + i] for i in idx]
+        k = j
+    ctx.cov["spec_encoder_messages_checked"] = len(blobs)
+    if bad:
+        ctx.broken.append("K_kafka_spec: KafkaSpecEnc.encode differs from the segmentio encoder on %d messages; first %r" % (len(bad), bad[0]))
